@@ -281,6 +281,34 @@ fn check_point(p: C, acc: &mut Acc) -> Result<(), String> {
             ensure!(e <= FWD * 10.0, "powf({:?}, {}) = {:?} but exp(x ln z) = {:?}", p, wv.0, gotf, want);
         }
     }
+    // no state may be carried between calls: f(z), f(z') with the same modulus (conjugate, negative, rotated), f(z) again
+    for wv in [(0.5, 0.0), (1.5, -2.0), (-1.0, 0.0)] {
+        let first = c(zz.pow(&z(wv)));
+        for other in [(p.0, -p.1), (-p.0, -p.1), (p.1, p.0), (-p.1, p.0)] {
+            let _ = z(other).pow(&z(wv));
+            let again = c(zz.pow(&z(wv)));
+            ensure!(again.0.to_bits() == first.0.to_bits() && again.1.to_bits() == first.1.to_bits(), "pow({:?}, {:?}) changed from {:?} to {:?} after an intervening call with base {:?}", p, wv, first, again, other);
+            let o = c(z(other).pow(&z(wv)));
+            let want = oexp(mul(wv, c(z(other).ln())));
+            ensure!(nrel(o, want) <= FWD * 10.0, "pow({:?}, {:?}) = {:?} right after pow({:?}, .): expected {:?}", other, wv, o, p, want);
+        }
+        if wv.1 == 0.0 {
+            let first = c(zz.powf(wv.0));
+            let _ = z((p.0, -p.1)).powf(wv.0);
+            let o = c(z((-p.0, -p.1)).powf(wv.0));
+            let want = oexp(mul(wv, c(z((-p.0, -p.1)).ln())));
+            ensure!(nrel(o, want) <= FWD * 10.0, "powf({:?}, {}) = {:?} after calls with bases of equal modulus: expected {:?}", (-p.0, -p.1), wv.0, o, want);
+            let again = c(zz.powf(wv.0));
+            ensure!(again.0.to_bits() == first.0.to_bits() && again.1.to_bits() == first.1.to_bits(), "powf changed between identical calls");
+        }
+    }
+    for (name, f) in [("sqrt", Cmplx::sqrt as fn(&Cmplx) -> Cmplx), ("ln", Cmplx::ln), ("exp", Cmplx::exp), ("asin", Cmplx::asin), ("atanh", Cmplx::atanh)] {
+        let first = c(f(&zz));
+        let _ = f(&z((p.0, -p.1)));
+        let _ = f(&z((-p.0, p.1)));
+        let again = c(f(&zz));
+        ensure!((again.0.to_bits() == first.0.to_bits() && again.1.to_bits() == first.1.to_bits()) || (again.0.is_nan() && first.0.is_nan()), "{} changed between identical calls separated by calls on the conjugate", name);
+    }
     // log base b
     for b in [(2.0, 0.0), (0.0, 1.0), (-3.0, 0.5)] {
         let got = c(zz.log(z(b)));
